@@ -1,13 +1,14 @@
 #!/bin/bash
-# tools/import_benign.sh <Cxx>...  - copies the deliverables of a benign-refactoring sub-agent into selftest/benign/r1/
-mkdir -p /verif/selftest/benign/r1
+# tools/import_benign.sh <round-dir> <letters> <Cxx>...  - copies the deliverables of a benign-refactoring sub-agent into selftest/benign/<round-dir>/
+rd=$1; letters=$2; shift 2
+mkdir -p /verif/selftest/benign/$rd
 for id in "$@"; do
-  for v in p q r s; do
+  for v in $letters; do
     src=/tmp/benign/$id/out/$v
     [ -f $src/patch.diff ] || { echo "$id-$v: no deliverable"; continue; }
     git -C /repo apply --check $src/patch.diff 2>/dev/null || { echo "$id-$v: patch does not apply to /repo HEAD"; continue; }
-    cp $src/patch.diff /verif/selftest/benign/r1/$id-$v.diff
-    cp $src/meta.json /verif/selftest/benign/r1/$id-$v.json
+    cp $src/patch.diff /verif/selftest/benign/$rd/$id-$v.diff
+    cp $src/meta.json /verif/selftest/benign/$rd/$id-$v.json
     echo "$id-$v imported"
   done
 done
